@@ -1,0 +1,101 @@
+//go:build verif
+// +build verif
+
+package pbft
+
+// Synchronous stepping of a ConsensusState for the verification harness (build tag verif only).
+// Nothing here changes behaviour: each Verif* entry point performs exactly what one iteration
+// of receiveRoutine / OnStart performs, on the caller's goroutine.
+
+import (
+	"io"
+	"time"
+)
+
+// VerifTimeout mirrors the unexported timeoutInfo.
+type VerifTimeout struct {
+	Duration time.Duration
+	Height   int64
+	Round    int64
+	Step     RoundStepType
+}
+
+// VerifTicker records the timeouts the state machine schedules instead of running a timer.
+type VerifTicker struct {
+	scheduled []timeoutInfo
+	ch        chan timeoutInfo
+}
+
+func (t *VerifTicker) Start() (bool, error)           { return true, nil }
+func (t *VerifTicker) Stop() bool                     { return true }
+func (t *VerifTicker) Chan() <-chan timeoutInfo       { return t.ch }
+func (t *VerifTicker) ScheduleTimeout(ti timeoutInfo) { t.scheduled = append(t.scheduled, ti) }
+
+// Drain returns and forgets the timeouts scheduled since the last call.
+func (t *VerifTicker) Drain() []VerifTimeout {
+	out := make([]VerifTimeout, 0, len(t.scheduled))
+	for _, ti := range t.scheduled {
+		out = append(out, VerifTimeout{ti.Duration, ti.Height, ti.Round, ti.Step})
+	}
+	t.scheduled = nil
+	return out
+}
+
+// VerifInstallTicker replaces the timer by a recording ticker.
+func (cs *ConsensusState) VerifInstallTicker() *VerifTicker {
+	t := &VerifTicker{ch: make(chan timeoutInfo)}
+	cs.SetTimeoutTicker(t)
+	return t
+}
+
+// VerifBoot does what OnStart does before it starts the receive routine: makes sure the WAL knows
+// the height, replays the WAL for the current height, and schedules round 0.
+func (cs *ConsensusState) VerifBoot() error {
+	gr, found, err := cs.wal.group.Search("#HEIGHT: ", makeHeightSearchFunc(cs.Height))
+	if (err == io.EOF || !found) && cs.Step == RoundStepNewHeight {
+		cs.wal.Save(cs.RoundStateEvent())
+	} else if err != nil {
+		return err
+	}
+	if gr != nil {
+		gr.Close()
+	}
+	rerr := cs.catchupReplay(cs.Height)
+	cs.scheduleRound0(cs.GetRoundState())
+	return rerr
+}
+
+// VerifDeliverMsg logs and handles one message exactly as receiveRoutine does for an entry of
+// peerMsgQueue (peerKey != "") or internalMsgQueue (peerKey == "").
+func (cs *ConsensusState) VerifDeliverMsg(msg ConsensusMessage, peerKey string) {
+	mi := msgInfo{msg, peerKey}
+	rs := cs.RoundState
+	cs.wal.Save(mi)
+	cs.handleMsg(mi, rs)
+}
+
+// VerifDeliverTimeout logs and handles one timeout exactly as receiveRoutine does.
+func (cs *ConsensusState) VerifDeliverTimeout(t VerifTimeout) {
+	ti := timeoutInfo{t.Duration, t.Height, t.Round, t.Step}
+	rs := cs.RoundState
+	cs.wal.Save(ti)
+	cs.handleTimeout(ti, rs)
+}
+
+// VerifPopInternal takes the next message the state machine queued for itself (its own
+// proposal, block parts and votes), if any, without handling it.
+func (cs *ConsensusState) VerifPopInternal() (ConsensusMessage, bool) {
+	select {
+	case mi := <-cs.internalMsgQueue:
+		return mi.Msg, true
+	default:
+		return nil, false
+	}
+}
+
+// VerifCloseWAL stops the write-ahead log (a crash or an orderly stop).
+func (cs *ConsensusState) VerifCloseWAL() {
+	if cs.wal != nil {
+		cs.wal.Stop()
+	}
+}
